@@ -54,6 +54,7 @@ impl Property for C15 {
             ("link:WallSpace".into(), 100),
             ("link:WallCons".into(), 100),
             ("link:WallNext".into(), 50),
+            ("link:WallNext(non-interior wall)".into(), 20),
             ("link:WinWall".into(), 50),
             ("link:WinCons".into(), 50),
             ("negative_bridge".into(), 100),
@@ -81,6 +82,13 @@ impl Property for C15 {
                 let kinds = [LinkKind::WallSpace, LinkKind::WallCons, LinkKind::WallNext, LinkKind::WinWall, LinkKind::WinCons];
                 // random subset of the link kinds
                 let sel: Vec<LinkKind> = kinds.iter().filter(|_| rng.chance(0.7)).cloned().collect();
+                // adjacent-space references also occur on non-interior walls (valid or not)
+                let space_ids: Vec<Uuid> = m.spaces.iter().map(|s| s.id).collect();
+                for w in m.walls.iter_mut() {
+                    if w.next_to.is_none() && rng.chance(0.06) && !space_ids.is_empty() {
+                        w.next_to = Some(space_ids[rng.usize(space_ids.len())]);
+                    }
+                }
                 break_links(&mut rng, &mut m, p, &sel);
                 for t in m.thermal_bridges.iter_mut() {
                     if t.l == 0.0 {
@@ -112,7 +120,12 @@ impl Property for C15 {
             let name = match b.link {
                 Link::WallSpace => "WallSpace",
                 Link::WallCons => "WallCons",
-                Link::WallNext => "WallNext",
+                Link::WallNext => {
+                    if m.walls.iter().any(|w| w.id == b.owner && w.bounds != bemodel::BoundaryType::INTERIOR) {
+                        obs.count("link:WallNext(non-interior wall)");
+                    }
+                    "WallNext"
+                }
                 Link::WinWall => "WinWall",
                 Link::WinCons => "WinCons",
                 _ => continue,
